@@ -17,6 +17,9 @@ pub broadcast group group_f64_total { axiom_f64_add_total, axiom_f64_mul_total, 
 // (V1) ToOwned for a Clone type is its clone (std blanket impl; no vstd specification)
 pub assume_specification<T: Clone>[ <T as std::borrow::ToOwned>::to_owned ](x: &T) -> (r: T)
     ensures call_ensures(<T as Clone>::clone, (x,), r);
+// (V2) Option<(A, B)>::unzip (no vstd specification)
+pub assume_specification<A, B>[ Option::<(A, B)>::unzip ](o: Option<(A, B)>) -> (r: (Option<A>, Option<B>))
+    ensures r == (match o { Some((a, b)) => (Some(a), Some(b)), None => (None::<A>, None::<B>) });
 /// r is the IEEE sum / product of a and b (as far as the verifier is concerned: the result of `a + b` / `a * b`)
 pub open spec fn fadd(a: f64, b: f64, r: f64) -> bool { add_ensures::<f64>(a, b, r) }
 pub open spec fn fmul(a: f64, b: f64, r: f64) -> bool { mul_ensures::<f64>(a, b, r) }
@@ -82,6 +85,8 @@ spec:
 /*@ type src/quantity.rs Quantity
 derive
 rewrite `pub struct Quantity<V: QuantityValue = Value> {` => `pub struct Quantity<V = Value> {`
+rewrite `pub(crate) value: V,` => `pub value: V,`
+rewrite `pub(crate) unit: Option<String>,` => `pub unit: Option<String>,`
 @*/
 pub type ScalableQuantity = Quantity<ScalableValue>;
 pub type ScaledQuantity = Quantity<Value>;
@@ -169,11 +174,51 @@ spec:
 } // verus!
 } // mod quantity
 
+pub mod model {
+use vstd::prelude::*;
+use crate::*;
+use crate::quantity::*;
+verus! {
+// X8: TRUSTED stand-in for the bitflags!-generated `Modifiers`; constants copied from src/parser/model.rs each run
+/*@ bitflags src/parser/model.rs Modifiers
+@*/
+/*@ type src/model.rs RecipeReference
+derive
+@*/
+/*@ type src/model.rs ComponentRelation
+derive
+@*/
+/*@ type src/model.rs IngredientReferenceTarget
+derive Clone, Copy
+@*/
+/*@ type src/model.rs IngredientRelation
+derive
+rewrite `    relation: ComponentRelation,` => `    pub relation: ComponentRelation,`
+rewrite `    reference_target: Option<IngredientReferenceTarget>,` => `    pub reference_target: Option<IngredientReferenceTarget>,`
+@*/
+/*@ type src/model.rs Ingredient
+derive
+rewrite `pub struct Ingredient<V: QuantityValue = Value> {` => `pub struct Ingredient<V = Value> {`
+rewrite `pub(crate) modifiers: Modifiers,` => `pub modifiers: Modifiers,`
+@*/
+/*@ type src/model.rs Cookware
+derive
+rewrite `pub struct Cookware<V: QuantityValue = Value> {` => `pub struct Cookware<V = Value> {`
+rewrite `pub(crate) modifiers: Modifiers,` => `pub modifiers: Modifiers,`
+@*/
+/*@ type src/model.rs Timer
+derive
+rewrite `pub struct Timer<V: QuantityValue = Value> {` => `pub struct Timer<V = Value> {`
+@*/
+} // verus!
+} // mod model
+
 pub mod scale {
 use vstd::prelude::*;
 use vstd::std_specs::ops::*;
 use crate::*;
 use crate::quantity::*;
+use crate::model::*;
 verus! {
 broadcast use crate::group_f64_total;
 /*@ type src/scale.rs ScaleTarget
@@ -277,6 +322,84 @@ ret r
 spec:
         ensures r.unit == self.unit,
             self.value is Fixed ==> r.value == self.value->Fixed_0, self.value is Linear ==> r.value == self.value->Linear_0,
+@*/
+}
+/// C08: what scaling does to the optional quantity of a component
+pub open spec fn qty_scaled(q: Option<ScalableQuantity>, f: f64, out: Option<ScaledQuantity>, o: ScaleOutcome) -> bool {
+    match q {
+        None => out.is_none() && o is NoQuantity,
+        Some(q) => out.is_some() && out.unwrap().unit == q.unit && match q.value {
+            ScalableValue::Fixed(v) => out.unwrap().value == v && o is Fixed,
+            ScalableValue::Linear(v) => if is_text_spec(v) { out.unwrap().value == v && o is Error } else { o is Scaled && val_scaled(v, f, out.unwrap().value) },
+        },
+    }
+}
+impl Scale for Ingredient<ScalableValue> {
+    type Output = Ingredient<Value>;
+/*@ fn src/scale.rs <Scale~for~Ingredient>::scale
+tags C08
+ret r
+inline map 0
+spec:
+        ensures
+            // [C08] name, alias, note, recipe reference, relations and modifiers are untouched
+            r.0.name == self.name, r.0.alias == self.alias, r.0.note == self.note, r.0.reference == self.reference,
+            r.0.relation == self.relation, r.0.modifiers == self.modifiers,
+            // [C08] the quantity is scaled as the value-level contract says and the outcome names the case that applied
+            qty_scaled(self.quantity, target.f(), r.0.quantity, r.1),
+@*/
+/*@ fn src/scale.rs <Scale~for~Ingredient>::default_scale
+tags C08
+ret r
+spec:
+        ensures r.name == self.name, r.alias == self.alias, r.note == self.note, r.reference == self.reference,
+            r.relation == self.relation, r.modifiers == self.modifiers,
+            self.quantity.is_none() ==> r.quantity.is_none(),
+            self.quantity.is_some() ==> r.quantity.is_some() && r.quantity.unwrap().unit == self.quantity.unwrap().unit,
+@*/
+}
+impl Scale for Timer<ScalableValue> {
+    type Output = Timer<Value>;
+/*@ fn src/scale.rs <Scale~for~Timer>::scale
+tags C08
+ret r
+inline map 0
+spec:
+        ensures r.0.name == self.name, qty_scaled(self.quantity, target.f(), r.0.quantity, r.1),
+@*/
+/*@ fn src/scale.rs <Scale~for~Timer>::default_scale
+tags C08
+ret r
+spec:
+        ensures r.name == self.name,
+            self.quantity.is_none() ==> r.quantity.is_none(),
+            self.quantity.is_some() ==> r.quantity.is_some() && r.quantity.unwrap().unit == self.quantity.unwrap().unit,
+@*/
+}
+/// C08: cookware carries a bare value (no unit)
+pub open spec fn cw_scaled(q: Option<ScalableValue>, f: f64, out: Option<Value>, o: ScaleOutcome) -> bool {
+    match q {
+        None => out.is_none() && o is NoQuantity,
+        Some(ScalableValue::Fixed(v)) => out == Some(v) && o is Fixed,
+        Some(ScalableValue::Linear(v)) => out.is_some() && if is_text_spec(v) { out.unwrap() == v && o is Error } else { o is Scaled && val_scaled(v, f, out.unwrap()) },
+    }
+}
+impl Scale for Cookware<ScalableValue> {
+    type Output = Cookware<Value>;
+/*@ fn src/scale.rs <Scale~for~Cookware>::scale
+tags C08
+ret r
+inline map 0
+spec:
+        ensures r.0.name == self.name, r.0.alias == self.alias, r.0.note == self.note, r.0.relation == self.relation, r.0.modifiers == self.modifiers,
+            cw_scaled(self.quantity, target.f(), r.0.quantity, r.1),
+@*/
+/*@ fn src/scale.rs <Scale~for~Cookware>::default_scale
+tags C08
+ret r
+spec:
+        ensures r.name == self.name, r.alias == self.alias, r.note == self.note, r.relation == self.relation, r.modifiers == self.modifiers,
+            self.quantity.is_none() == r.quantity.is_none(),
 @*/
 }
 } // verus!
